@@ -1161,7 +1161,7 @@ static bool checkReaders(const Regs& g, const Node& n, const Node* pre, int p, i
   guarded("getNormInf", [&]() { double x = A->getNormInf(); double w = n.obs.getd("ninf", 0); if (!closeTo(x, w, exact)) failObs("getNormInf", w, x); });
   guarded("isSymmetric", [&]() { bool x = A->isSymmetric(); bool w = n.obs.getb("sym", false); if (x != w) failObs("isSymmetric", w, x); });
   guarded("isIdentity", [&]() { if (r != c) return; bool x = A->isIdentity(); bool w = n.obs.getb("ident", false); if (x != w) failObs("isIdentity", w, x); });
-  guarded("isNonNegative", [&]() { bool x = A->isNonNegative(); bool w = n.obs.getb("nonneg", false); if (x != w) failObs("isNonNegative", w, x); });
+  if (exact) guarded("isNonNegative", [&]() { bool x = A->isNonNegative(); bool w = n.obs.getb("nonneg", false); if (x != w) failObs("isNonNegative", w, x); });
   if (r == c && !isSparseProf(p))
   {
     const AMatrixSquare* S = dynamic_cast<const AMatrixSquare*>(A);
